@@ -24,6 +24,9 @@ TECH = {
  "C18":"property-based testing: generated builder scripts (all property subsets, raw-string setters) executed against the compiled output; oracle = required-set coverage, equality with deserialization, rebuild identity",
  "C19":"property-based testing: one compiled trait-bound assertion per (type, promised trait set) for every named type the API yields, syn visibility scan",
 }
+FUZZ = " ; thorough tier additionally: coverage-guided fuzzing (cargo-fuzz/libFuzzer) whose bytes drive the same structured generator, in-process oracle half inside the target, recorded cases and distilled corpus re-judged by the full pipeline"
+for k in ("C01","C07","C08","C12","C16","C17","C19"):
+    TECH[k] += FUZZ
 checks=[]
 for p in props:
     if p['id'] in built:
@@ -42,7 +45,8 @@ m={
  "version":1,
  "setup_cmd":"./setup.sh",
  "hooks":{"guard":"typify_verif","enable":"none needed: every property is observable through the public API, the emitted tokens and the compiled artefact; no hook commit exists","baseline_off_cmd":"cd /repo && cargo test --workspace --no-fail-fast --offline","source_commits":[],"add_only":True},
- "engines":[{"name":"vrf","path":"harness/vrf","serves_properties":sorted(built),"kind_free_text":"Rust property-based testing harness (proptest-seeded generators, worker sub-processes running typify under catch_unwind, batch compile pipeline with rustc 1.80.1, python jsonschema oracle, batched structural shrinker, replay files)"}],
+ "engines":[{"name":"vrf","path":"harness/vrf","serves_properties":sorted(built),"kind_free_text":"Rust property-based testing harness (proptest-seeded generators, worker sub-processes running typify under catch_unwind, batch compile pipeline with rustc 1.80.1, python jsonschema oracle, batched structural shrinker, replay files)"},
+  {"name":"vrf-fuzz","path":"harness/fuzz","serves_properties":["C01","C07","C08","C12","C16","C17","C19"],"kind_free_text":"cargo-fuzz / libFuzzer target `inproc` (nightly, no sanitizer): bytes -> G::from_bytes -> the property's structured generator -> in-process oracle half; stage of the thorough tier, its recorded cases and corpus are re-judged by vrf (DESIGN.md 11.6)"}],
  "checks":checks,
  "not_applicable":[{"property_id":p['id'],"reason":"check not built yet (work in progress; DESIGN.md §5 describes the planned check)"} for p in props if p['id'] not in built],
  "notes":"see DESIGN.md; fixes to typify are the `fix:` commits in /repo, recorded as `fixed:` entries in known_findings.json"
